@@ -376,3 +376,139 @@ def gen_value_case(r, idx):
             lines.append("V mouse %d %d %d %d %d %d" % (a + b))
     lines.append("END")
     return lines
+
+
+# ---- input items (Proto.v) ---------------------------------------------------------
+CSI_KEYS = [65, 66, 67, 68, 72, 70, 73, 90]
+SS3_KEYS = [65, 66, 67, 68, 72, 70, 73, 77, 80, 81, 82, 83]
+KEYPAD = [1, 2, 3, 4, 5, 6, 11, 12, 13, 14, 15, 17, 18, 19, 20, 21, 23, 24]
+BUTTONS = [0, 1, 2, 3, 32, 64, 65]
+OTHER_FINALS = [f for f in range(64, 127) if f not in CSI_KEYS + [77, 126]]
+
+
+def gen_item(r, allow_high=True):
+    """-> (text, first byte) of one well-formed item"""
+    k = r.below(16)
+    if k < 4:
+        while True:
+            b = r.pick([r.rng(32, 126), r.rng(32, 126), r.below(32), r.rng(127, 255) if allow_high else r.rng(32, 126)])
+            if b not in (27, 13, 10, 155, 143) and (allow_high or b < 128):
+                return "IT char %d" % b, b
+    if k < 6:
+        f = r.below(5)
+        return "IT enter %d" % f, (13 if f in (0, 1, 3) else 10)
+    intro = r.below(3)
+    first = 155 if intro == 2 else 27
+    if k < 9:
+        rep = r.pick([-1, -1, 1, 0, 2, 7, 35, 1000, 2147483647, r.below(1 << 31)])
+        mod = r.pick([-1, -1, -1] + list(range(1, 17)))
+        return "IT csikey %d %d %d %d" % (intro, r.pick(CSI_KEYS), rep, mod), first
+    if k < 11:
+        mod = r.pick([-1, -1] + list(range(1, 17)))
+        return "IT keypad %d %d %d" % (intro, r.pick(KEYPAD), mod), first
+    if k < 12:
+        return "IT ss3 %d %d" % (intro, r.pick(SS3_KEYS)), (143 if intro == 2 else 27)
+    if k < 14:
+        n = r.pick([0, 0, 1, 1, 2, 3, 5])
+        ps = [r.pick([0, 1, 5, 25, 47, 1000, 1049, r.below(1 << 31)]) for _ in range(n)]
+        return "IT other %d %d %d %d%s" % (intro, r.pick([0, 0, 63, 62, 33]), r.pick(OTHER_FINALS), n,
+                                          "".join(" %d" % p for p in ps)), first
+    return "IT mouse %d %d %d %d" % (intro, r.pick(BUTTONS), r.rng(1, 223), r.rng(1, 223)), first
+
+
+def gen_items(r, n, allow_high=True, prev_bare=None):
+    """n well-formed items respecting the CR/LF adjacency rule; prev_bare is the
+    bare CR/LF (13/10) the previous delivery ended with, if any"""
+    out = []
+    while len(out) < n:
+        txt, first = gen_item(r, allow_high)
+        if prev_bare == 13 and first in (10, 0):
+            continue
+        if prev_bare == 10 and first == 13:
+            continue
+        out.append(txt)
+        prev_bare = 13 if txt == "IT enter 3" else 10 if txt == "IT enter 4" else None
+    return out
+
+
+def last_bare(items):
+    return 13 if items and items[-1] == "IT enter 3" else 10 if items and items[-1] == "IT enter 4" else None
+
+
+def gen_items_case(r, idx):
+    lines = ["CASE %d" % idx, "T 0 new %d" % beh_mask(r), "T 0 arm"]
+    pb = None
+    for _ in range(r.rng(1, 3)):
+        its = gen_items(r, r.rng(1, 8), prev_bare=pb)
+        pb = last_bare(its)
+        lines.append("T 0 items " + " ".join(its))
+    lines.append("END")
+    return lines
+
+
+BYTE_CLASSES = [27, 27, 27, 91, 91, 79, 77, 126, 59, 59, 63, 62, 33, 13, 10, 0, 155, 143, 48, 49, 57, 65, 66, 80, 90, 104, 32, 33, 97, 200, 255, 128, 150]
+
+
+def wild_bytes(r, n):
+    return [r.pick(BYTE_CLASSES) if r.chance(4, 5) else r.below(256) for _ in range(n)]
+
+
+def partition(r, bs, mode):
+    """split a byte list into deliveries"""
+    if mode == 0:
+        return [bs]
+    if mode == 1:
+        return [[b] for b in bs]
+    out, i = [], 0
+    while i < len(bs):
+        if r.chance(1, 6):
+            out.append([])
+        k = r.rng(1, 4)
+        out.append(bs[i:i + k])
+        i += k
+    if r.chance(1, 3):
+        out.append([])
+    return out
+
+
+def gen_chunks_case(r, idx, item_stream=None):
+    """the same byte stream delivered to several terminals under different
+    partitions; the stream is random bytes aimed at the parser's classes"""
+    lines = ["CASE %d" % idx]
+    bs = wild_bytes(r, r.rng(1, 24))
+    for tid in range(4):
+        lines.append("T %d new 0" % tid)
+        lines.append("T %d arm" % tid)
+    for tid in range(4):
+        for chunk in partition(r, bs, tid if tid < 2 else 2):
+            lines.append("T %d recv %s" % (tid, hexs(chunk)))
+    lines.append("END")
+    return lines
+
+
+def gen_garbage_case(r, idx):
+    """arbitrary bytes, then four letters, then well-formed items whose
+    decoding must be the fresh-terminal one"""
+    lines = ["CASE %d" % idx, "T 0 new 0", "T 0 arm"]
+    g = wild_bytes(r, r.rng(0, 30))
+    lines.append("T 0 recv " + hexs(g))
+    letters = [r.pick(list(range(65, 91)) + list(range(97, 123))) for _ in range(4)]
+    lines.append("T 0 recv " + hexs(letters))
+    lines.append("T 0 items " + " ".join(gen_items(r, r.rng(1, 5))))
+    lines.append("END")
+    return lines
+
+
+# ---- markup --------------------------------------------------------------------------------
+def gen_markup_wild_case(r, idx):
+    lines = ["CASE %d" % idx]
+    alpha = [92, 92, 92, 67, 99, 105, 112, 117, 91, 60, 123, 40, 93, 62, 125, 41, 85, 120, 37,
+             48, 49, 50, 53, 57, 65, 70, 97, 102, 43, 45, 32, 0, 128, 200, 255]
+    for _ in range(3):
+        n = r.rng(0, 16)
+        bs = [r.pick(alpha) if r.chance(5, 6) else r.below(256) for _ in range(n)]
+        lines.append("M encode " + hexs(bs))
+    bs = [r.pick(alpha) for _ in range(r.rng(0, 8))]
+    lines.append("M ete " + hexs(bs))
+    lines.append("END")
+    return lines
